@@ -302,6 +302,18 @@ func (Xmlenc) Run(c *orch.Case) *orch.Outcome {
 	}
 
 	eo := encOptsFor(&in, rng, spKP.DER, &spKey.PublicKey)
+	if in.Sub == "trip" || in.Sub == "len" || in.Sub == "multi" {
+		// ciphertext is opaque: one that happens to end in 0x00 or in white space is as good as any other
+		switch (c.Seed / 3) % 4 {
+		case 0:
+			eo.LastOctet = new(byte)
+		case 1:
+			sp := byte(' ')
+			eo.LastOctet = &sp
+		case 2:
+			eo.WrapLastOctet = new(byte)
+		}
+	}
 	if in.Shape == "staleKey" {
 		eo.SymKey = make([]byte, idp.KeyLen(eo.DataAlg))
 		rand.Read(eo.SymKey)
@@ -410,8 +422,22 @@ func (Xmlenc) Run(c *orch.Case) *orch.Outcome {
 	build := func(kid *etree.Element) string {
 		bb := idp.NewBuilder(lay, c.Seed+3)
 		root := bb.ResponseEl(genuineRoot())
+		kid = kid.Copy()
 		root.AddChild(kid)
-		if second != nil && kid == ee {
+		// where the namespace of the EncryptedAssertion element is declared is the sender's business: on the element
+		// (as built), only on the Response (prefix), or as the Response's default namespace with the element unprefixed
+		if kid.Tag == "EncryptedAssertion" && kid.Space != "" && root.Space != "" && in.Sub != "shape" {
+			switch (c.Seed / 8) % 3 {
+			case 1:
+				kid.RemoveAttr("xmlns:" + kid.Space)
+				root.CreateAttr("xmlns:"+kid.Space, idp.NSAssertion)
+			case 2:
+				kid.RemoveAttr("xmlns:" + kid.Space)
+				kid.Space = ""
+				root.CreateAttr("xmlns", idp.NSAssertion)
+			}
+		}
+		if second != nil && kid.Tag == "EncryptedAssertion" {
 			root.AddChild(second.Copy())
 		} else if secondPlain != nil {
 			root.AddChild(secondPlain.Copy())
